@@ -114,7 +114,7 @@ func c15Exprs(s *source, fd *ast.FuncDecl) []string {
 				out = append(out, "set:"+s.src(x))
 			case fn == "h.AddWithReplicas" || fn == "h.Remove" || fn == "NewCustomConsistentHash" || fn == "lang.Repr" ||
 				fn == "h.removeRingNode" || fn == "insertRingNode" || fn == "h.addNode" || fn == "h.removeNode" ||
-				fn == "h.containsNode" || fn == "murmur3.Sum64":
+				fn == "h.containsNode" || fn == "murmur3.Sum64" || fn == "h.removeLocked":
 				out = append(out, "call:"+s.src(x))
 			case fn == "h.hashFunc" && len(x.Args) == 1:
 				out = append(out, "hash:"+s.src(x.Args[0]))
@@ -209,6 +209,14 @@ func init() {
 			}
 			e.shapeDef(s, f, fn[0], fn[1]+"Shape")
 			e.stringList(fn[1]+"Exprs", "hashed bytes, search predicates, orderings, `%` of `"+fn[0]+"`", c15Exprs(s, fd))
+		}
+		// fixes/C15-add-single-critical-section.patch moves the body of Remove into removeLocked (absent before)
+		if fd := s.findFunc(f, "ConsistentHash.removeLocked"); fd != nil {
+			e.shapeDef(s, f, "ConsistentHash.removeLocked", "removeLockedShape")
+			e.stringList("removeLockedExprs", "hashed bytes, search predicates of `removeLocked`", c15Exprs(s, fd))
+		} else {
+			e.stringList("removeLockedShape", "`removeLocked` does not exist in this tree", []string{"ABSENT"})
+			e.stringList("removeLockedExprs", "`removeLocked` does not exist in this tree", []string{"ABSENT"})
 		}
 		// the users of the ring
 		e.stringList("cacheUsers", "ring construction and dispatch in core/stores/cache/cache.go", c15Users(s, "core/stores/cache/cache.go", "New"))
